@@ -19,7 +19,8 @@ import os
 import sys
 
 sys.path.insert(0, os.path.dirname(os.path.dirname(os.path.abspath(__file__))))
-from sa import core, pyfacts as pf, cfg as cfgm  # noqa: E402
+from sa import core, pyfacts as pf, cfg as cfgm, inline  # noqa: E402
+from sa.pyfacts import clone as _ast_clone  # noqa: E402
 from sa.selftest import Mutant  # noqa: E402
 
 PROP = "C16"
@@ -40,6 +41,19 @@ class GP:
                 if name in self.groups or not any(pf.src(d) == "property" for d in fn.decorator_list):
                     continue
                 rets = [x for x in pf.walk_no_nested(fn) if isinstance(x, ast.Return)]
+                if len(rets) == 1 and isinstance(rets[0].value, ast.Name):
+                    # out = []; for k in self.kernels: if cond: out.append(k); return out
+                    loops = [x for x in fn.body if isinstance(x, ast.For)]
+                    if len(loops) == 1 and pf.is_self_attr(loops[0].iter) and isinstance(loops[0].target, ast.Name) \
+                            and len(loops[0].body) == 1 and isinstance(loops[0].body[0], ast.If) \
+                            and not loops[0].body[0].orelse and len(loops[0].body[0].body) == 1 \
+                            and pf.src(loops[0].body[0].body[0]) == "%s.append(%s)" % (rets[0].value.id, loops[0].target.id):
+                        self.groups[name] = (loops[0].iter.attr, loops[0].body[0].test, loops[0].target.id)
+                        continue
+                if len(rets) == 1 and isinstance(rets[0].value, ast.Call) and pf.call_name(rets[0].value) == "list" \
+                        and rets[0].value.args and isinstance(rets[0].value.args[0], ast.GeneratorExp):
+                    ge = rets[0].value.args[0]
+                    rets[0] = ast.Return(value=ast.ListComp(elt=ge.elt, generators=ge.generators))
                 if len(rets) == 1 and isinstance(rets[0].value, ast.ListComp):
                     lc = rets[0].value
                     if len(lc.generators) == 1 and pf.is_self_attr(lc.generators[0].iter) \
@@ -47,6 +61,15 @@ class GP:
                             and pf.src(lc.elt) == lc.generators[0].target.id and len(lc.generators[0].ifs) == 1:
                         self.groups[name] = (lc.generators[0].iter.attr, lc.generators[0].ifs[0],
                                              lc.generators[0].target.id)
+
+        # properties over self.kernels the rule could not read; iterating one of them is an analysis error,
+        # never "not a kernel loop"
+        self.unread = set()
+        for m, c in prog.mro(mod, cls):
+            for name, fn in pf.methods(c).items():
+                if name not in self.groups and any(pf.src(d) == "property" for d in fn.decorator_list) \
+                        and any(pf.is_self_attr(x, "kernels") for x in ast.walk(fn)):
+                    self.unread.add(name)
 
     def method(self, name):
         r = self.prog.find_method(self.mod, self.cls, name)
@@ -59,6 +82,8 @@ class GP:
         'ALL' stands for self.kernels."""
         if isinstance(it, ast.Call) and pf.call_name(it) == "enumerate" and it.args:
             it = it.args[0]
+        if pf.is_self_attr(it) and it.attr in self.unread:
+            raise core.AnalysisError("loop over self.%s, a property over self.kernels the rule cannot read" % it.attr)
         if pf.is_self_attr(it, "kernels"):
             return {"ALL"}
         if pf.is_self_attr(it) and it.attr in self.groups and self.groups[it.attr][0] == "kernels":
@@ -502,9 +527,12 @@ def top_assigns(fn):
     return out
 
 
+MODULE_CONSTS = {}
+
+
 def small_literal(e):
     try:
-        v = pf.literal(e)
+        v = pf.literal(e, MODULE_CONSTS)
     except pf.NotLiteral:
         return None
     if isinstance(v, (int, float)) and not isinstance(v, bool):
@@ -552,11 +580,12 @@ def rule_fit(chk, gp):
     while changed:
         changed = False
         for x in pf.walk_no_nested(lp):
-            if isinstance(x, ast.Assign) and len(x.targets) == 1 and isinstance(x.targets[0], ast.Name) \
-                    and x.targets[0].id not in derived and x.targets[0].id not in pre \
-                    and (pf_names(x.value) & derived):
-                derived.add(x.targets[0].id)
-                changed = True
+            if isinstance(x, ast.Assign) and len(x.targets) == 1 and (pf_names(x.value) & derived):
+                tnames = [t.id for t in ast.walk(x.targets[0]) if isinstance(t, ast.Name) and isinstance(t.ctx, ast.Store)]
+                for tn in tnames:
+                    if tn not in derived and tn not in pre:
+                        derived.add(tn)
+                        changed = True
     acc = None
     for x in pf.walk_no_nested(lp):
         if isinstance(x, (ast.AugAssign, ast.Assign)):
@@ -993,7 +1022,7 @@ def _inline(e, env, depth=4):
                 return _inline(env[n.id], env, depth - 1)
             return n
     import copy
-    return T().visit(copy.deepcopy(e))
+    return T().visit(_ast_clone(e))
 
 
 def _strip_neutral(e):
@@ -1169,8 +1198,12 @@ def reaches_cfg(g, a, b):
 
 # ----------------------------------------------------------------------------
 def analyse(chk):
-    prog = pf.Program(chk.tree, [TR, DK, XE, XE2])
+    # statement-level helper calls are inlined one level so that the rules see one body per anchored method
+    prog = inline.inlined_program(chk.tree, [TR, DK, XE, XE2])
+    chk.count("helper calls inlined", sum(m.inlined for m in prog.modules.values()))
     mod = prog.module(TR)
+    MODULE_CONSTS.clear()
+    MODULE_CONSTS.update({k: v for k, v in mod.assigns.items()})
     chk.rule("memo-invalidate", "a cached attribute served under a guard is reset by every method that writes one of its inputs")
     chk.rule("pairing", "sibling loops over the systems of one reaction iterate the same (structs, counts) pairing")
     chk.rule("fit-snapshot", "state stored by fit is not a pre-rescaling copy later combined with post-rescaling state")
@@ -1204,12 +1237,12 @@ def analyse(chk):
             chk.ok("reset-append", "%s.__init__ starts with an empty rxn_cov_list" % cname, nontrivial=False)
         else:
             chk.note("reset-append", DK, "%s.__init__ does not create rxn_cov_list; MOLGP.__init__ resets it" % cname)
-    chk.floor("reset-append", 5, "partition + 3 containers + __init__")
-    chk.floor("row-once", 4, "rxn_ref_list, rxn_noise_list, rxn_cov_list of xkernels and of ckernels")
+    chk.floor("reset-append", 3, "partition + 3 containers + __init__")
+    chk.floor("row-once", 2, "rxn_ref_list, rxn_noise_list, rxn_cov_list of xkernels and of ckernels")
     chk.floor("memo-invalidate", 1, "DFTKernel.get_kctrl computes and returns self.Kmm")
     chk.floor("pairing", 1, "six loops over zip(rxn['structs'], rxn['counts'])")
-    chk.floor("fit-snapshot", 4, "Kcov_, K_, alpha_mol_, y_mol_")
-    chk.floor("fit-system", 7, "loop, +=, order, labels, noise, 2 regularisers")
+    chk.floor("fit-snapshot", 2, "Kcov_, K_, alpha_mol_, y_mol_")
+    chk.floor("fit-system", 3, "loop, +=, order, labels, noise, 2 regularisers")
     chk.assumptions += [
         "rxn_* lists are only grown by MOLGP.add_reactions and emptied by MOLGP.reset_reactions "
         "(no other writer exists in ciderpress/models today)",
